@@ -6,8 +6,15 @@
    well formed (distinct bits, marker bit free, extended fields behind byte >= 4, every field
    covered) - COMPUTED; the round trip, the short form, the record size are proved for any such schema.
    Two layers: (1) archive API level, fully proved: the reader inverts the writer on the archive value;
-   (2) byte level: relative to the bin-archive round trip as an explicit premise (C18_round_trip), and with that
-       premise discharged by C01 through Proofs/RecsBinBridge.v (C18_round_trip_final: no premise, no axiom).
+   (2) byte level: relative to the bin-archive round trip as an explicit premise (C18_round_trip_normal_form_relative), and
+       with that premise discharged by C01 through Proofs/RecsBinBridge.v (C18_round_trip_normal_form, C18_round_trip_normalises:
+       no premise, no axiom).
+   SCOPE.  For ALL specs (C18_round_trip_normalises; hypotheses = the representation invariants of the Rust struct + NUL-free
+   strings + image < 2^32) the value read back is `norm_bin b`: every string, every presence flag, every value of a PRESENT
+   typed field.  The value held by an ABSENT typed field (use flag false) is not stored by the format and reads back as the
+   default 0; the literal statement "parse (serialize b) = b for arbitrary field values" is C18_round_trip_full, REFUTED by
+   C18_round_trip_full_refuted (unk3 = 5 with use_unk3 = false), and equality holds exactly on the normal form
+   (C18_round_trip_equal_iff_normal_form).
    A spec: sp_name, sp_strs (33 optional strings), sp_typed (18 x (use flag, 32-bit pattern)).
    wf_spec = 33 + 18 fields, values < 2^32, NORMAL FORM: an absent typed field holds its default 0
    (the file does not store it; the code needs this: Example C18_normal_form_needed).
@@ -15,7 +22,7 @@
 From Coq Require Import List NArith ZArith Bool.
 From Mila Require Import Lib.Bytes Lib.Machine Model.BinArchive Model.BinStreams Model.BinFormat Model.AssetBin
   Proofs.RecsCells Proofs.RecsBytes Proofs.AssetBinSchema Proofs.AssetBinFlags Proofs.AssetBinWrite Proofs.AssetBinRead
-  Proofs.AssetBinRoundTrip Proofs.AssetBinBytes Proofs.AssetBinStable.
+  Proofs.AssetBinRoundTrip Proofs.AssetBinBytes Proofs.AssetBinStable Proofs.AssetBinNormalise.
 Import ListNotations.
 Local Open Scope N_scope.
 
@@ -53,7 +60,7 @@ Theorem C18_reader_observational : forall b a',
 Proof. exact from_archive_obs_equal. Qed.
 
 (* ---- (2) byte level; premise = bin-archive round trip on the archives this writer builds ---- *)
-Theorem C18_round_trip : forall m,
+Theorem C18_round_trip_normal_form_relative : forall m,
   (forall a, ba_wf a -> image_bound a + 3 < 2 ^ 32 ->
      exists f a', BinFormat.serialize m a = Ok f /\ BinFormat.from_bytes LE f = Ok a' /\ obs_equal a a') ->
   forall b, wf_bin_bytes b ->
@@ -61,9 +68,44 @@ Theorem C18_round_trip : forall m,
 Proof. exact round_trip_bytes. Qed.
 (* ... and with that premise discharged by the bin-archive round trip C01 (Proofs/RecsBinBridge.v): for every
    arithmetic mode, serialize succeeds, parse returns the same value, re-serializing what was read gives the same bytes *)
-Theorem C18_round_trip_final : forall m b, wf_bin_bytes b ->
+Theorem C18_round_trip_normal_form : forall m b, wf_bin_bytes b ->
   exists f, serialize m b = Ok f /\ parse f = Ok b /\ (forall b', parse f = Ok b' -> serialize m b' = Ok f).
 Proof. exact round_trip_bytes_final. Qed.
+
+(* ---- (3) ALL specs: no normal-form condition.  What is read back is the normalised value: the same header flags, and per spec the
+        same name, the same 33 optional strings, the same 18 presence flags and the same value of every PRESENT typed field;
+        absent typed fields hold the default 0.  (The third conjunct - re-serializing whatever is re-read gives the same bytes -
+        follows from the first two in the deterministic model; that two runs of the real serializer agree is C02's statement.) ---- *)
+Theorem C18_round_trip_normalises : forall m b, shape_bin_bytes b ->
+  exists f, serialize m b = Ok f /\ parse f = Ok (norm_bin b) /\ (forall b', parse f = Ok b' -> serialize m b' = Ok f).
+Proof. exact round_trip_bytes_normalises. Qed.
+Theorem C18_round_trip_normalises_archive : forall b, shape_bin b ->
+  exists a, build b = Ok a /\ from_archive a = Ok (norm_bin b) /\ wf_bin (norm_bin b).
+Proof. exact round_trip_normalises. Qed.
+(* what normalisation keeps and what it drops *)
+Theorem C18_normalise_keeps : forall sp t,
+  sp_name (norm_spec sp) = sp_name sp /\ get_str (norm_spec sp) t = get_str sp t /\ get_use (norm_spec sp) t = get_use sp t /\
+  get_val (norm_spec sp) t = (if get_use sp t then get_val sp t else 0).
+Proof. exact (fun sp t => conj eq_refl (conj (get_str_norm sp t) (conj (get_use_norm sp t) (get_val_norm sp t)))). Qed.
+Theorem C18_normal_form_is_fixed : forall b, wf_bin b -> norm_bin b = b.
+Proof. exact norm_bin_id. Qed.
+(* the writer does not look at the value of an absent field: a value and its normal form have the same image *)
+Theorem C18_serialize_normalised : forall m b, serialize m (norm_bin b) = serialize m b.
+Proof. exact serialize_norm. Qed.
+(* equality of the re-read value holds exactly on the normal form *)
+Theorem C18_round_trip_equal_iff_normal_form : forall m b f,
+  shape_bin_bytes b -> serialize m b = Ok f -> (parse f = Ok b <-> norm_bin b = b).
+Proof. exact round_trip_equal_iff. Qed.
+(* the property's literal reading ("arbitrary field values ... exactly the same numeric fields"), kept as the full statement ... *)
+Definition C18_round_trip_full : Prop :=
+  forall m b, shape_bin_bytes b -> exists f, serialize m b = Ok f /\ parse f = Ok b.
+(* ... and refuted: unk3 = 5 with use_unk3 = false is read back as unk3 = 0 (the real crate does the same: the format does not
+   store the value of an absent field).  The property's sentence "the same ... numeric fields together with their presence
+   flags" is true in the reading of C18_round_trip_normalises. *)
+Theorem C18_round_trip_full_refuted : ~ C18_round_trip_full.
+Proof. exact round_trip_full_refuted. Qed.
+Example C18_witness_in_scope : shape_bin_bytes nf_witness /\ norm_bin nf_witness <> nf_witness.
+Proof. split; [exact nf_witness_shape | vm_compute; discriminate]. Qed.
 (* the premise is used on a well-formed archive: what the writer builds satisfies ba_wf *)
 Theorem C18_built_archive_wf : forall b, wf_bin_bytes b -> ba_wf (arch_of (src_file_cells b) []).
 Proof. exact built_archive_wf. Qed.
